@@ -383,6 +383,16 @@ func engRoute(seed int64, tier string, args []string, out *sx.Out) {
 		rtProducts(rng, tier, out)
 		return
 	}
+	if mode == "c06t" {
+		n := 200
+		if tier == "thorough" {
+			n = 8000
+		}
+		for h := 0; h < n; h++ {
+			rtTrim(rng, h, out)
+		}
+		return
+	}
 	if mode == "c04f" {
 		n := 160
 		if tier == "thorough" {
@@ -713,6 +723,79 @@ func rtStored(rng *rand.Rand, h int, out *sx.Out) {
 		}
 		for n := 0; n < 40 && !w.hung && len(w.clients[id].unacked) > 0; n++ {
 			w.ackOldest(id)
+		}
+	}
+}
+
+// rtTrim: share groups whose filter particle holds nothing but the shared subscriptions (no other
+// subscription, no retained message, no other child), while non-shared filters strictly below and above
+// them are subscribed and unsubscribed and retained messages are set and cleared below them between the
+// publishes — every such change runs TopicsIndex.trim from a deeper or shallower particle, and each
+// group with a matching member must still get exactly one copy afterwards.
+func rtTrim(rng *rand.Rand, h int, out *sx.Out) {
+	w := newWorld(out, 2, true, nil)
+	defer w.close()
+	shared := []string{"$share/g/a/b", "$share/h/x/+", "$share/k/y", "$share/g/a/b/c/+"}
+	deep := []string{"a/b/c", "a/b/c/d", "a/b/+/d", "x/+/z", "x/+/z/w", "y/q", "y/q/r", "a/b/c/d/e"} // strictly below a share particle
+	above := []string{"a", "x", "a/+/c/d"}                                                              // above / beside
+	deepTopics := []string{"a/b/c", "a/b/c/d", "y/q", "y/q/r", "a/b/zz"}                               // retained set and cleared here
+	pubTopics := []string{"a/b", "x/1", "y", "a/b/c/d", "a/b/c"}
+	ids := []string{"c1", "c2", "c3"}
+	for i, id := range ids {
+		ver := byte(5)
+		if i == 2 && h%2 == 0 {
+			ver = 4
+		}
+		w.connect(id, ver, true, false, false)
+	}
+	// memberships: every group gets one or two members; nobody subscribes the group's own particle otherwise
+	for _, f := range shared {
+		n := 1 + rng.Intn(2)
+		perm := rng.Perm(len(ids))
+		for j := 0; j < n; j++ {
+			w.subscribe(ids[perm[j]], []rtSub{{filter: f, qos: byte(rng.Intn(3))}})
+		}
+	}
+	held := map[[2]string]bool{}
+	seq := 0
+	for i := 0; i < 30 && !w.hung; i++ {
+		id := ids[rng.Intn(len(ids))]
+		switch k := rng.Intn(100); {
+		case k < 22: // subscribe below / above
+			f := deep[rng.Intn(len(deep))]
+			if rng.Intn(4) == 0 {
+				f = above[rng.Intn(len(above))]
+			}
+			held[[2]string{id, f}] = true
+			w.subscribe(id, []rtSub{{filter: f, qos: byte(rng.Intn(3))}})
+		case k < 44: // unsubscribe one of them again (trim from a deeper or shallower particle)
+			var cand [][2]string
+			for e := range held {
+				cand = append(cand, e)
+			}
+			sort.Slice(cand, func(a, b int) bool { return cand[a][0]+cand[a][1] < cand[b][0]+cand[b][1] })
+			if len(cand) == 0 {
+				w.unsubscribe(id, []string{deep[rng.Intn(len(deep))]}) // nothing there: Unsubscribe still trims
+				break
+			}
+			e := cand[rng.Intn(len(cand))]
+			delete(held, e)
+			w.unsubscribe(e[0], []string{e[1]})
+		case k < 56: // retained message set below a share particle
+			seq++
+			w.publish(id, rtMsg{topic: deepTopics[rng.Intn(len(deepTopics))], payload: "r" + string(rune('a'+seq%26)), qos: byte(rng.Intn(2)), retain: true})
+		case k < 70: // ... and cleared (empty payload: RetainMessage trims)
+			w.publish(id, rtMsg{topic: deepTopics[rng.Intn(len(deepTopics))], payload: "", qos: 0, retain: true})
+		case k < 74: // a member leaves / joins a group
+			f := shared[rng.Intn(len(shared))]
+			if rng.Intn(2) == 0 {
+				w.unsubscribe(id, []string{f})
+			} else {
+				w.subscribe(id, []rtSub{{filter: f, qos: byte(rng.Intn(3))}})
+			}
+		default: // publish: each group with a matching member gets exactly one copy
+			seq++
+			w.publish(id, rtMsg{topic: pubTopics[rng.Intn(len(pubTopics))], payload: "m" + string(rune('a'+seq%26)), qos: byte(rng.Intn(3))})
 		}
 	}
 }
